@@ -217,3 +217,50 @@ func VerifH_C10_Retry() {
 		_ = cli.Stats()
 	})
 }
+
+// P7: two QoS 2 publishes ‖ each other ‖ the reader goroutine routing PUBREC / PUBCOMP.  The two flows use
+// different identifiers, so the only ordering between one caller's waiter registration and the reader's
+// look-up for the other flow is the signaller's own locking.
+func VerifH_C10_TwoQoS2() {
+	conn := newVconn("c0")
+	conn.split = true
+	cli := &BaseClient{Transport: conn}
+	verifSetRand(100)
+	first := true
+	conn.onWrite = func(c *vconn, p []byte) error {
+		var resp []byte
+		if first {
+			first = false
+			resp = []byte{0x20, 2, 0, 0}
+		} else if d := refDecode(p); d.ok {
+			resp = c07Answer(d)
+		}
+		if resp != nil {
+			c.rbuf = append(c.rbuf, resp...)
+			c.nInjected += len(resp)
+			c.signalLocked = true
+		}
+		return nil
+	}
+	_, err := cli.Connect(context.Background(), "cid")
+	verifAssert(err == nil, "C10.harness_connect")
+	ctx := context.Background()
+	var e1, e2 error
+	done := make(chan struct{}, 2)
+	go func() {
+		e1 = cli.Publish(ctx, &Message{Topic: "a", QoS: QoS2, Payload: []byte{1}})
+		done <- struct{}{}
+	}()
+	go func() {
+		e2 = cli.Publish(ctx, &Message{Topic: "b", QoS: QoS2, Payload: []byte{2}})
+		done <- struct{}{}
+	}()
+	verifOnQuiescence(func() {
+		verifReach("end")
+		c10CheckWire(conn, "C10.wire")
+	})
+	<-done
+	<-done
+	verifAssert(e1 == nil && e2 == nil, "C10.both_flows_complete")
+	cli.Close()
+}
